@@ -37,11 +37,14 @@ def main():
     ok_base = b.returncode == 0
     # 2 demo
     d1 = subprocess.run(["/venv/bin/python", demo], env=env, stdout=subprocess.PIPE, stderr=subprocess.STDOUT, text=True, cwd=out, timeout=900)
-    sh(f"git -C {wt} stash")
+    # NOT git stash: the stash is shared by all worktrees of a repository
+    r = sh(f"git -C {wt} apply -R {dest}/patch.diff")
+    assert r.returncode == 0, r.stdout
     try:
         d0 = subprocess.run(["/venv/bin/python", demo], env=env, stdout=subprocess.PIPE, stderr=subprocess.STDOUT, text=True, cwd=out, timeout=900)
     finally:
-        sh(f"git -C {wt} stash pop")
+        r = sh(f"git -C {wt} apply {dest}/patch.diff")
+        assert r.returncode == 0, r.stdout
     meta["ran"]["demo_with_change"] = {"exit": d1.returncode, "tail": d1.stdout.strip()[-300:]}
     meta["ran"]["demo_without_change"] = {"exit": d0.returncode, "tail": d0.stdout.strip()[-300:]}
     ok_demo = d1.returncode != 0 and d0.returncode == 0
